@@ -24,6 +24,12 @@
   R8  existence of parents below the update's own range: R1/R2/R6 make the ids of an update exist once THAT update is committed; for ids reserved by an
       earlier update some construct must establish existence (refusal to open or commit an update while an earlier one is uncommitted, look-up of the
       parents in jobs, foreign key).  None is present today: known finding (the acceptance clause is violated; R7 keeps such batches completable)
+  R9  jobs.n_pending_parents never exceeds the number of job_parents rows stored for the job (mark_job_complete decrements once per row; no recount at the commit
+      of the first update): cardinality normal forms of the list the count is taken of and of the lists the rows are built from (|L| / distinct(X) symbols,
+      distinct(X) = |X| - dup(X)); rows repeating a key are refused by the primary key (R4)
+  Call-site specialisation (R1/R2): option parameters of _create_jobs that callers bind to literals are propagated and the tests folded; the job-spec validator is
+      analysed with each caller's arguments; a bound against a number the request states is no bound when the update it lands on may be an existing one
+      (token replay returns the stored row without comparing n_jobs)
 Not decided: anything about graphs once R1 holds (with parent < child the dependency relation is acyclic by construction).
 """
 from __future__ import annotations
@@ -42,9 +48,10 @@ META = dict(
     text='The ids stored by the submission path are shown to lie in the ranges the property demands: abstract execution of the per-job loop over symbolic linear values, '
          'rejecting tests as linear constraints, implication decided by comparing normal forms (sources: request fields and the batch_updates row, resolved through the SELECT list; '
          'sinks: the tuples bound to the jobs / job_parents inserts). Plus the guard structure of the commit procedure and the integer-ness of the id fields.',
-    note='One-constraint implications only (no elimination across several constraints: such shapes are declined). start_job_id >= 1 and n_jobs >= 0 are assumed for the update row. '
+    note='Call sites of _create_jobs that bind its option parameters to literals are analysed separately (literal propagation + folding); hailtop.utils.validate validators are trusted not to rewrite the spec. '
+         'One-constraint implications only (no elimination across several constraints: such shapes are declined). start_job_id >= 1 and n_jobs >= 0 are assumed for the update row. '
          'Schema constraints are read from the replayed migrations.',
-    technique='static analysis: abstract execution over symbolic linear forms with helper inlining, comparison of linear normal forms (Python and SQL select list), guard dominance in the commit procedure',
+    technique='static analysis: abstract execution over symbolic linear forms with helper inlining, comparison of linear normal forms (Python and SQL select list), guard dominance in the commit procedure, call-site specialisation, cardinality normal forms of list expressions',
     design_ref='DESIGN.md §3 C08',
 )
 
@@ -217,14 +224,175 @@ def _spec_loop(ctx: Ctx, fn: pf.FuncDef, lists: Set[str], what: str):
     return loops[0]
 
 
-def _validator_constraints(ctx: Ctx, m: pf.Module):
-    """Constraints the job-spec validator puts on the ids, usable when every caller of _create_jobs validates the same list first."""
+# ---- call-site specialisation ------------------------------------------------------------------------------------------------------------
+#
+# `_create_jobs(..., job_ids_checked=True)`: a check that is switched off for SOME callers must be judged for those callers, with what they do instead.
+# Parameters that have a default and are bound to a literal at a call site are replaced by that literal and the tests are folded (constant
+# propagation over literals only); the job-spec validator is analysed with the arguments each caller gives it (a literal is propagated, any other
+# argument becomes a symbol of its own: `caller:<expression>`; `<param> is None` on such a parameter is a case split, both cases are analysed).
+
+def _bind(fdef: pf.FuncDef, call: ast.Call) -> Optional[Dict[str, ast.expr]]:
+    a = fdef.args
+    if a.vararg or a.kwarg or any(isinstance(x, ast.Starred) for x in call.args) or any(k.arg is None for k in call.keywords):
+        return None
+    pos = [x.arg for x in a.posonlyargs + a.args]
+    params = pos + [x.arg for x in a.kwonlyargs]
+    if len(call.args) > len(pos):
+        return None
+    out: Dict[str, ast.expr] = dict(zip(pos, call.args))
+    for k in call.keywords:
+        if k.arg in out or k.arg not in params:
+            return None
+        out[k.arg] = k.value  # type: ignore[index]
+    defaults = dict(zip(pos[len(pos) - len(a.defaults):], a.defaults))
+    defaults.update({x.arg: d for x, d in zip(a.kwonlyargs, a.kw_defaults) if d is not None})
+    for p_ in params:
+        if p_ not in out:
+            if p_ not in defaults:
+                return None
+            out[p_] = defaults[p_]
+    return out
+
+
+def _with_default(fdef: pf.FuncDef) -> Set[str]:
+    a = fdef.args
+    pos = [x.arg for x in a.posonlyargs + a.args]
+    return set(pos[len(pos) - len(a.defaults):]) | {x.arg for x, d in zip(a.kwonlyargs, a.kw_defaults) if d is not None}
+
+
+def _is_lit(e: ast.AST) -> bool:
+    return isinstance(e, ast.Constant) and (e.value is None or isinstance(e.value, (bool, int, str)))
+
+
+class _Fold(ast.NodeTransformer):
+    """substitute literals for names and fold the boolean structure around them (literals only; nothing else is evaluated)."""
+
+    def __init__(self, consts: Dict[str, ast.Constant], none_case: Dict[str, bool]):
+        self.consts = consts
+        self.none_case = none_case          # parameter -> is it None in this case
+
+    def visit_Name(self, n: ast.Name):
+        if isinstance(n.ctx, ast.Load) and n.id in self.consts:
+            return ast.copy_location(ast.Constant(value=self.consts[n.id].value), n)
+        return n
+
+    def visit_Compare(self, n: ast.Compare):
+        if len(n.ops) == 1 and isinstance(n.ops[0], (ast.Is, ast.IsNot)) and isinstance(n.left, ast.Name) and n.left.id in self.none_case \
+                and isinstance(n.comparators[0], ast.Constant) and n.comparators[0].value is None:
+            v = self.none_case[n.left.id]
+            return ast.copy_location(ast.Constant(value=v if isinstance(n.ops[0], ast.Is) else not v), n)
+        self.generic_visit(n)
+        if len(n.ops) == 1 and isinstance(n.left, ast.Constant) and isinstance(n.comparators[0], ast.Constant) and isinstance(n.ops[0], (ast.Is, ast.IsNot, ast.Eq, ast.NotEq)):
+            a, b = n.left.value, n.comparators[0].value
+            same = (a is b) if (a is None or b is None or isinstance(a, bool) or isinstance(b, bool)) else (type(a) is type(b) and a == b)
+            return ast.copy_location(ast.Constant(value=same if isinstance(n.ops[0], (ast.Is, ast.Eq)) else not same), n)
+        return n
+
+    def visit_UnaryOp(self, n: ast.UnaryOp):
+        self.generic_visit(n)
+        if isinstance(n.op, ast.Not) and isinstance(n.operand, ast.Constant) and (n.operand.value is None or isinstance(n.operand.value, bool)):
+            return ast.copy_location(ast.Constant(value=not n.operand.value), n)
+        return n
+
+    def visit_BoolOp(self, n: ast.BoolOp):
+        self.generic_visit(n)
+        is_and = isinstance(n.op, ast.And)
+        vals = []
+        for v in n.values:
+            if isinstance(v, ast.Constant) and (v.value is None or isinstance(v.value, bool)):
+                if bool(v.value) != is_and:
+                    return ast.copy_location(ast.Constant(value=not is_and), n)      # False in an `and`, True in an `or`
+                continue
+            vals.append(v)
+        if not vals:
+            return ast.copy_location(ast.Constant(value=is_and), n)
+        if len(vals) == 1:
+            return vals[0]
+        n.values = vals
+        return n
+
+    def visit_IfExp(self, n: ast.IfExp):
+        self.generic_visit(n)
+        if isinstance(n.test, ast.Constant) and (n.test.value is None or isinstance(n.test.value, bool)):
+            return n.body if n.test.value else n.orelse
+        return n
+
+    def visit_If(self, n: ast.If):
+        self.generic_visit(n)
+        if isinstance(n.test, ast.Constant) and (n.test.value is None or isinstance(n.test.value, bool)):
+            out = n.body if n.test.value else n.orelse
+            return out if out else ast.copy_location(ast.Pass(), n)
+        return n
+
+
+def _specialise(fn: pf.FuncDef, consts: Dict[str, ast.Constant], none_case: Optional[Dict[str, bool]] = None) -> pf.FuncDef:
+    import copy
+    consts = {k: v for k, v in consts.items() if _stores(fn, k) == 0}
+    if not consts and not none_case:
+        return fn
+    f2 = copy.deepcopy(fn)
+    f2.body = [x for st in f2.body for x in (lambda r: r if isinstance(r, list) else [r])(_Fold(consts, none_case or {}).visit(st))]
+    ast.fix_missing_locations(f2)
+    return f2
+
+
+class _Group:
+    """callers of _create_jobs that bind its option parameters and the validator's parameters alike."""
+
+    def __init__(self, flags: Dict[str, ast.Constant], vbind: Optional[Dict[str, ast.expr]]):
+        self.flags = flags
+        self.vbind = vbind                   # validator parameter -> argument (None: the caller does not visibly validate the list it passes)
+        self.callers: List[Tuple[pf.FuncDef, ast.Call, Optional[ast.Call]]] = []
+
+    def label(self) -> str:
+        return ', '.join(sorted({f.name for f, _c, _v in self.callers}))
+
+
+def _caller_groups(ctx: Ctx, m: pf.Module, vm: pf.Module) -> List[_Group]:
+    create = m.func('_create_jobs')
+    vdef = vm.func('validate_and_clean_jobs')
+    opt = _with_default(create)
+    vopt = [x.arg for x in vdef.args.posonlyargs + vdef.args.args + vdef.args.kwonlyargs][1:]
+    groups: Dict[str, _Group] = {}
+    for f in [n for n in m.tree.body if isinstance(n, (ast.FunctionDef, ast.AsyncFunctionDef))]:
+        for c in pf.walk_shallow(f):
+            if not (isinstance(c, ast.Call) and pf.dotted(c.func) == '_create_jobs'):
+                continue
+            b = _bind(create, c)
+            ctx.need(b is not None, f'{FE}::{f.name}: arguments of the _create_jobs call not recognised')
+            flags = {}
+            for p_ in sorted(opt):
+                v = pf.expand_locals(f, b[p_]) if not _is_lit(b[p_]) else b[p_]  # type: ignore[index]
+                ctx.need(_is_lit(v), f'{FE}::{f.name}: option `{p_}={pf.nsrc(b[p_])}` of _create_jobs is not a literal: the checks it switches are not decided')  # type: ignore[index]
+                flags[p_] = v
+            arg = b.get('job_specs') if 'job_specs' in b else (c.args[1] if len(c.args) > 1 else None)  # type: ignore[union-attr]
+            vcall = None
+            for v in pf.walk_shallow(f):
+                if isinstance(v, ast.Call) and pf.dotted(v.func) == 'validate_and_clean_jobs' and v.args and isinstance(arg, ast.Name) and isinstance(v.args[0], ast.Name) \
+                        and v.args[0].id == arg.id and v.lineno < c.lineno:
+                    vcall = v
+            vbind = None
+            if vcall is not None:
+                vb = _bind(vdef, vcall)
+                ctx.need(vb is not None, f'{FE}::{f.name}: arguments of the validate_and_clean_jobs call not recognised')
+                vbind = {p_: (vb[p_] if _is_lit(vb[p_]) else pf.expand_locals(f, vb[p_])) for p_ in vopt}  # type: ignore[index]
+            key = repr(sorted((k, v.value) for k, v in flags.items())) + '|' + (repr(sorted((k, pf.nsrc(v)) for k, v in vbind.items())) if vbind is not None else 'no validation')
+            g = groups.setdefault(key, _Group(flags, vbind))
+            g.callers.append((f, c, vcall))
+    ctx.need(groups, f'{FE}: no caller of _create_jobs found')
+    return list(groups.values())
+
+
+def _validator_constraints(ctx: Ctx, vm: pf.Module, vbind: Optional[Dict[str, ast.expr]], none_case: Dict[str, bool]):
+    """Constraints the job-spec validator puts on the ids, for callers that validate the list first with the given arguments."""
     from engines import c08ids as ci
     from engines import inline
     from engines import linform as lf
-    vm = pf.load(VAL)
-    vm2, _il = inline.inline_functions(vm, 'validate_and_clean_jobs')
+    vm2, _il = inline.inline_functions(ci.slice_module(vm, 'validate_and_clean_jobs'), 'validate_and_clean_jobs')
     vfn = vm2.func('validate_and_clean_jobs')
+    consts = {k: v for k, v in (vbind or {}).items() if _is_lit(v)}
+    syms = {k: lf.sym('caller:' + pf.nsrc(v)) for k, v in (vbind or {}).items() if not _is_lit(v)}
+    vfn = _specialise(vfn, consts, none_case)  # type: ignore[arg-type]
     loops = [n for n in vfn.body if isinstance(n, ast.For)]
     ctx.need(len(loops) == 1, f'{VAL}::validate_and_clean_jobs: per-job loop not recognised')
     lp = loops[0]
@@ -233,35 +401,103 @@ def _validator_constraints(ctx: Ctx, m: pf.Module):
         tgt = tgt.elts[1]
     ctx.need(isinstance(tgt, ast.Name), f'{VAL}::validate_and_clean_jobs: loop variable not recognised')
     spec = tgt.id  # type: ignore[union-attr]
-    fl = ci.IdFlow(ci.REL, spec, {f'{spec}[{"job_id"!r}]': lf.sym(ci.REL)}, {})
+    env = {f'{spec}[{"job_id"!r}]': lf.sym(ci.REL)}
+    for k, v in syms.items():
+        ctx.need(_stores(vfn, k) == 0, f'{VAL}::validate_and_clean_jobs: parameter `{k}` is reassigned')
+        env[k] = v
+    fl = ci.IdFlow(ci.REL, spec, env, {})
     fl.run(lp.body, VAL)
     # a validator that rewrites the id slots would change what _create_jobs reads
     for n in ast.walk(lp):
         if isinstance(n, ast.Subscript) and isinstance(n.ctx, ast.Store) and isinstance(n.value, ast.Name) and n.value.id == spec and pf.const_str(n.slice) in ('job_id', 'in_update_parent_ids'):
             raise AnalysisError(f'{VAL}::validate_and_clean_jobs rewrites {spec}[{pf.const_str(n.slice)!r}]')
-    cons = [c for c in fl.cons if all(x in ci.BASE for x in c.le0.symbols())]
+    ok_syms = set(ci.BASE) | {next(iter(v.coef)) for v in syms.values()}
+    cons = [c for c in fl.cons if all(x in ok_syms for x in c.le0.symbols())]
     und = list(fl.undecided)
-    if not cons and not und:
+    if vbind is None:
+        if cons or und:
+            return [], [(f'{VAL}: the validator constrains the ids but a caller of _create_jobs does not visibly validate the list it passes', frozenset(ci.BASE))] + und, []
         return [], [], []
-    # every caller of _create_jobs must have validated the list it passes
-    callers_ok = True
-    for f in [n for n in m.tree.body if isinstance(n, (ast.FunctionDef, ast.AsyncFunctionDef))]:
-        for c in pf.walk_shallow(f):
-            if isinstance(c, ast.Call) and pf.dotted(c.func) == '_create_jobs':
-                arg = c.args[1] if len(c.args) > 1 else None
-                seen = any(isinstance(v, ast.Call) and pf.dotted(v.func) == 'validate_and_clean_jobs' and v.args and isinstance(arg, ast.Name) and isinstance(v.args[0], ast.Name)
-                           and v.args[0].id == arg.id and v.lineno < c.lineno for v in pf.walk_shallow(f))
-                callers_ok = callers_ok and seen
-    if not callers_ok:
-        return [], [(f'{VAL}: the validator constrains the ids but a caller of _create_jobs does not visibly validate the list it passes', frozenset(ci.BASE))] + und, []
     return cons, und, list(fl.neq)
+
+
+def _unrelated_to_reservation(ctx: Ctx, m: pf.Module, grp: _Group, symbol: str) -> Optional[str]:
+    """`caller:<E>`: the validator compared the job ids with the caller's expression E.  Is E provably NOT tied to batch_updates.n_jobs of the update the
+    jobs are stored under?  Shown when, for every caller of the group: the update id comes from a module-level function G that receives E as a parameter p,
+    G stores p as n_jobs when it INSERTs the batch_updates row, and G has a return path that neither passes that INSERT nor a test mentioning p while its
+    look-up of an existing row does not even read n_jobs (a replayed token answers with the existing update, whatever n_jobs the request states).
+    Returns the history (a violation text) or None (not decided)."""
+    create = m.func('_create_jobs')
+    texts = []
+    for f, c, vcall in grp.callers:
+        b = _bind(create, c)
+        uid = b.get('update_id') if b else None
+        if not isinstance(uid, ast.Name):
+            return None
+        srcs = [n for n in pf.walk_shallow(f) if isinstance(n, ast.Assign) and any(isinstance(x, ast.Name) and x.id == uid.id and isinstance(x.ctx, ast.Store) for t in n.targets for x in ast.walk(t))]
+        if len(srcs) != 1:
+            return None
+        v = srcs[0].value.value if isinstance(srcs[0].value, ast.Await) else srcs[0].value
+        if not (isinstance(v, ast.Call) and isinstance(v.func, ast.Name) and m.has_func(v.func.id)):
+            return None
+        gdef = m.func(v.func.id)
+        gb = _bind(gdef, v)
+        if gb is None:
+            return None
+        want = symbol[len('caller:'):]
+        ps = [p_ for p_, a in gb.items() if pf.nsrc(pf.expand_locals(f, a)) == want]
+        if len(ps) != 1:
+            return None
+        p_ = ps[0]
+        holders = [h for h in ast.walk(gdef) if isinstance(h, (ast.FunctionDef, ast.AsyncFunctionDef))]
+        ins = []
+        looks = []
+        for e in sf.embedded_in(m):
+            if e.fn not in holders or e.sql_text is None:
+                continue
+            for st in e.stmts():
+                if st.kind == 'insert' and isinstance(st.table, str) and st.table.lower() == 'batch_updates':
+                    ins.append((e, st))
+                if st.kind == 'select' and st.frm is not None and 'batch_updates' in [t.lower() for t in sf.table_names(st.frm)] and not st.order:
+                    looks.append((e, st))
+        if len(ins) != 1:
+            return None
+        ie, ist = ins[0]
+        elts = sr.args_tuple(ie.fn, ie.call.args[1]) if len(ie.call.args) > 1 else None
+        if elts is None or ist.cols is None or len(elts) != len(ist.cols):
+            return None
+        stored = dict(zip([c_.lower() for c_ in ist.cols], elts)).get('n_jobs')
+        if not (isinstance(stored, ast.Name) and stored.id == p_ and all(_stores(h, p_) == 0 for h in holders)):
+            return None
+        # a look-up of an existing row that reads n_jobs (or *) could be what ties the two numbers: not verified here
+        for le, lst_ in looks:
+            if le.fn is ie.fn and any(n.kind == 'star' or (n.kind == 'col' and n.parts[-1].lower() == 'n_jobs') for c_, _al in lst_.cols for n in c_.walk()):
+                return None
+        if not any(le.fn is ie.fn for le, _ in looks):
+            return None
+        g = pf.cfg(ie.fn)
+        inode = g.node_of(ie.call)
+        if len(inode) != 1:
+            return None
+        mentions = lambda n: n.kind == 'test' and n.ast is not None and p_ in pf.names_in(n.ast)  # noqa: E731
+        path = g.path_avoiding(g.entry, lambda n: n.kind == 'return', lambda n: n is inode[0] or mentions(n), edge_ok=lambda a, b_, lab: lab != 'exc')
+        if path is None:
+            return None
+        texts.append(f'{f.name} validates the ids against `{want}` (a number the request states) and takes its update id from {gdef.name}(.., {p_}={want}, ..), which stores {p_} as batch_updates.n_jobs '
+                     f'only when it INSERTs the row: on its path `{" -> ".join(x.text()[:40] for x in path if x.kind in ("test", "return"))}` it answers with an EXISTING update of the same token without '
+                     'comparing n_jobs')
+    if not texts:
+        return None
+    return '; '.join(texts) + ('. History: POST updates/create {token U, n_jobs 2} reserves ids s, s+1. POST update-fast {token U, n_jobs 4, bunch = in-update job ids 3, 4}: ids 3, 4 pass the '
+                               'validator (<= 4); the look-up returns the update that reserved 2 ids; jobs s+2, s+3 are stored under it; 2 jobs staged = 2 expected, so the commit succeeds with both '
+                               'jobs outside the reservation - they occupy the next update\'s ids, whose own bunch is then taken for a replay (duplicate key) and can never be committed')
 
 
 def r1_r2(ctx: Ctx) -> None:
     from engines import c08ids as ci
     from engines import inline
-    from engines import linform as lf
     m = pf.load(FE)
+    vm = pf.load(VAL)
     prog = sf.load_program()
     m.func('_create_jobs')
     sinks_spec = _insert_sinks(ctx, m)
@@ -269,8 +505,20 @@ def r1_r2(ctx: Ctx) -> None:
     ctx.need(tables == {'jobs', 'job_parents'}, f'{FE}::_create_jobs: INSERT INTO jobs / job_parents argument lists not found (found {sorted(tables)})')
     for v in sinks_spec.values():
         ctx.need('job_id' in v[1] and (v[0] != 'job_parents' or 'parent_id' in v[1]), f'{FE}::_create_jobs: id columns of INSERT INTO {v[0]} are not bound to parameters')
-    m2, il = inline.inline_functions(m, '_create_jobs')
-    fn = m2.func('_create_jobs')
+    m2, il = inline.inline_functions(ci.slice_module(m, '_create_jobs'), '_create_jobs')
+    fn0 = m2.func('_create_jobs')
+    ctx.unit('helpers inlined into _create_jobs', len(il.inlined))
+    groups = _caller_groups(ctx, m, vm)
+    ctx.unit('caller specialisations of _create_jobs', len(groups))
+    for grp in groups:
+        _r1_r2_group(ctx, m, vm, prog, sinks_spec, fn0, grp, f' [callers: {grp.label()}]' if len(groups) > 1 else '')
+
+
+def _r1_r2_group(ctx: Ctx, m: pf.Module, vm: pf.Module, prog, sinks_spec, fn0: pf.FuncDef, grp: _Group, tag: str) -> None:
+    from engines import c08ids as ci
+    from engines import linform as lf
+    import itertools
+    fn = _specialise(fn0, grp.flags)
     for name in sinks_spec:
         ctx.need(_stores(fn, name) == 1, f'{FE}::_create_jobs: `{name}` is rebound after its initialisation')
     loop = _spec_loop(ctx, fn, set(sinks_spec), f'{FE}::_create_jobs')
@@ -281,18 +529,34 @@ def r1_r2(ctx: Ctx) -> None:
     fl = ci.IdFlow(ci.REL, spec, env, {k: (v[0], v[1]['job_id'], v[1].get('parent_id')) for k, v in sinks_spec.items()})
     fl.run([st for st in fn.body if st.lineno < loop.lineno], FE)
     fl.run(loop.body, FE)
-    vcons, vund, vneq = _validator_constraints(ctx, m)
-    cons = list(fl.cons) + vcons
-    und = list(fl.undecided) + vund
-    neq = list(fl.neq) + vneq
-    ctx.unit('accepted-path constraints on submitted ids', len(cons))
-    ctx.unit('helpers inlined into _create_jobs', len(il.inlined))
+    # the validator, with this group's arguments; `<param> is None` on a non-literal argument: both cases
+    split = sorted(k for k, v in (grp.vbind or {}).items() if not _is_lit(v))
+    cases = []
+    for vals in itertools.product((False, True), repeat=len(split)):
+        nc = dict(zip(split, vals))
+        vcons, vund, vneq = _validator_constraints(ctx, vm, grp.vbind, nc)
+        cases.append((nc, list(fl.cons) + vcons, list(fl.undecided) + vund, list(fl.neq) + vneq))
+    # cases that do not differ are one case
+    uniq = []
+    for c in cases:
+        sig = (sorted((k.text, k.line) for k in c[1]), sorted(t for t, _ in c[2]))
+        if not any(sig == u[0] for u in uniq):
+            uniq.append((sig, c))
+    cases = [c for _s, c in uniq]
+    ctx.unit('accepted-path constraints on submitted ids', max(len(c[1]) for c in cases))
     jsinks = [s for s in fl.sinks if s.table == 'jobs']
     psinks = [s for s in fl.sinks if s.table == 'job_parents']
     ctx.need(jsinks and psinks, f'{FE}::_create_jobs: rows appended to the jobs / job_parents argument lists not found')
+    indep_cache: Dict[str, Optional[str]] = {}
 
-    def verdict(goal, var: str, what: str):
-        """('ok'|'bad'|decline) for `goal <= 0` on every accepted request."""
+    def unrelated(symbol: str) -> Optional[str]:
+        if symbol not in indep_cache:
+            indep_cache[symbol] = _unrelated_to_reservation(ctx, m, grp, symbol) if symbol.startswith('caller:') else None
+        return indep_cache[symbol]
+
+    def verdict_case(case, goal, var: str, what: str):
+        """(True | False | None = not decided, text) for `goal <= 0` on every accepted request."""
+        _nc, cons, und, neq = case
         # a constraint obtained inside a loop over a parent list says nothing when that list is empty: only constraints over the goal's own
         # symbols (and the range columns) can bound it for every request
         allowed = {var, ci.REL, ci.S, ci.NJ}
@@ -300,29 +564,55 @@ def r1_r2(ctx: Ctx) -> None:
         if status == 'ok':
             return True, f'{what}: implied by `{c.text}` ({c.file}:{c.line})'
         blockers = [t for t, at in und if var in at]
-        # a test on this id against a value the analysis has no normal form for (a non-linear expression, a column of another table)
-        blockers += [f'{k.file}:{k.line}: `{k.text}` compares with {sorted(set(k.le0.symbols()) - ci.BASE)}' for k in cons
-                     if var in k.le0.symbols() and (k.le0.coef[var] > 0) == (goal.coef.get(var, 0) > 0) and not set(k.le0.symbols()) <= ci.BASE]
+        # a test on this id against a value the analysis has no normal form for (a non-linear expression, a column of another table) - unless that value is
+        # shown to be unrelated to the reservation (a number stated by the request, never compared with the row)
+        notes = []
+        for k in cons:
+            if var in k.le0.symbols() and (k.le0.coef[var] > 0) == (goal.coef.get(var, 0) > 0) and not set(k.le0.symbols()) <= ci.BASE:
+                foreign = sorted(set(k.le0.symbols()) - ci.BASE)
+                hist = [unrelated(x) for x in foreign]
+                if all(h is not None for h in hist):
+                    notes.append(f'`{k.text}` ({k.file}:{k.line}) bounds it by {foreign[0][len("caller:"):]} only, which is not the reservation: {hist[0]}')
+                else:
+                    blockers.append(f'{k.file}:{k.line}: `{k.text}` compares with {foreign}')
         if status == 'unknown' or blockers:
-            raise AnalysisError(f'{FE}::_create_jobs: cannot decide `{what}`: ' + ('; '.join(blockers[:3]) if blockers else f'`{c.text}` leaves {diff} <= 0 to be shown'))
+            return None, f'cannot decide `{what}`: ' + ('; '.join(blockers[:3]) if blockers else f'`{c.text}` leaves {diff} <= 0 to be shown')
         if status == 'lenient':
             sharpen = [t for t, at in neq if var in at]
             if sharpen:
-                raise AnalysisError(f'{FE}::_create_jobs: cannot decide `{what}`: `{c.text}` is too weak by {_excess(diff)} but {sharpen[0]} may sharpen it')
-            return False, f'{what} is not enforced: the only rejecting test on it, `{c.text}` ({c.file}:{c.line}), lets through values that exceed the bound by {_excess(diff)}'
-        return False, f'{what} is not enforced: no rejecting test executed for every job bounds it'
+                return None, f'cannot decide `{what}`: `{c.text}` is too weak by {_excess(diff)} but {sharpen[0]} may sharpen it'
+            return False, f'{what} is not enforced: the only rejecting test on it, `{c.text}` ({c.file}:{c.line}), lets through values that exceed the bound by {_excess(diff)}' + ''.join('; ' + n for n in notes)
+        return False, f'{what} is not enforced: no rejecting test executed for every job bounds it by the reservation' + (' (' + '; '.join(notes) + ')' if notes else '')
+
+    def verdict(goal, var: str, what: str):
+        res = [verdict_case(c, goal, var, what) for c in cases]
+        und_ = [r for r in res if r[0] is None]
+        if und_:
+            return und_[0]
+        if all(r[0] for r in res):
+            return res[0]
+        if not any(r[0] for r in res):
+            return max(res, key=lambda r: len(r[1]))
+        return None, f'`{what}` depends on whether {split} is None at the validator call'
+
+    def settle(results, rule_what: str):
+        """results: [(True|False|None, text)] of the conjuncts of one rule instance -> (violated texts, holding texts); declines when nothing is violated and something is undecided."""
+        bad_ = [t for v, t in results if v is False]
+        und_ = [t for v, t in results if v is None]
+        if not bad_ and und_:
+            raise AnalysisError(f'{FE}::_create_jobs{tag}: {rule_what}: ' + ' | '.join(und_[:3]))
+        return bad_ + [f'(not decided: {t})' for t in und_[:2]] if bad_ else [], [t for v, t in results if v]
 
     # ---- R2: start_job_id <= stored job id <= start_job_id + n_jobs - 1 -------------------------------------------------------------------
-    msgs = []
-    good = []
+    res2 = []
     for s in jsinks:
         ctx.need(ci.REL in s.job.symbols(), f'{FE}::_create_jobs: the job id stored in `jobs` ({s.job}) is not a linear function of the submitted job_id')
-        lo_ok, lo_t = verdict(lf.sym(ci.S) - s.job, ci.REL, f'stored job id ({s.job}) >= start_job_id')
-        hi_ok, hi_t = verdict(s.job - lf.sym(ci.S) - lf.sym(ci.NJ) + lf.const(1), ci.REL, f'stored job id ({s.job}) <= start_job_id + n_jobs - 1')
-        (good if lo_ok else msgs).append(lo_t)
-        (good if hi_ok else msgs).append(hi_t)
-    ctx.check(not msgs, 'R2', f'{FE}::_create_jobs::job id within reserved range',
-              '; '.join(msgs) + '. A bunch may then place a job outside the ids start_job_id .. start_job_id + n_jobs - 1 its update reserved: only the COUNT of staged jobs is checked at commit, so an update '
+        res2.append(verdict(lf.sym(ci.S) - s.job, ci.REL, f'stored job id ({s.job}) >= start_job_id'))
+        res2.append(verdict(s.job - lf.sym(ci.S) - lf.sym(ci.NJ) + lf.const(1), ci.REL, f'stored job id ({s.job}) <= start_job_id + n_jobs - 1'))
+    msgs, good = settle(res2, 'job id within reserved range')
+    ctx.check(not msgs, 'R2', f'{FE}::_create_jobs::job id within reserved range{tag}',
+              (f'for the calls from {grp.label()} (options {({k: v.value for k, v in grp.flags.items()})}): ' if tag else '') + '; '.join(msgs) +
+              '. A bunch may then place a job outside the ids start_job_id .. start_job_id + n_jobs - 1 its update reserved: only the COUNT of staged jobs is checked at commit, so an update '
               'reserving n ids can be committed with one id of its range missing and one foreign id present (e.g. n_jobs = 3, bunches [1, 2] and [4 with in_update_parent_ids [3]]: job 4 waits for a job 3 that '
               'never exists; the foreign id also collides with the neighbouring update\'s range)', m.path, jsinks[0].line, detail=good)
     # the range compared against is the one of the update the jobs are recorded under
@@ -340,14 +630,14 @@ def r1_r2(ctx: Ctx) -> None:
         stored = tup.elts[i]  # type: ignore[union-attr,index]
         ctx.need(isinstance(pinned, ast.Name) and isinstance(stored, ast.Name) and _stores(fn, pinned.id) == 0 and _stores(fn, stored.id) == 0,
                  f'{FE}::_create_jobs: {col} of the range read / of the stored job is not a plain parameter')
-        ctx.check(pinned.id == stored.id, 'R2', f'{FE}::_create_jobs::reserved range read for the job\'s own {col}',  # type: ignore[union-attr]
+        ctx.check(pinned.id == stored.id, 'R2', f'{FE}::_create_jobs::reserved range read for the job\'s own {col}{tag}',  # type: ignore[union-attr]
                   f'the reserved range is read from the batch_updates row with {col} = {pf.nsrc(pinned)} but the jobs are stored with {col} = {pf.nsrc(stored)}: ids are checked against another update\'s range',
                   m.path, loop.lineno)
 
     # ---- R1: 1 <= stored parent id <= stored job id - 1, edges stored under the job's own id ----------------------------------------------------
     fk = _has_parent_fk(prog)
     cons_key = f'{FE}::_create_jobs::parent ids -> job_parents'
-    up_msgs, up_good, lo_msgs, lo_good = [], [], [], []
+    up_res, lo_res = [], []
     seen_sources = set()
     for s in psinks:
         ctx.need(s.source in ('abs', 'rel') and s.parent is not None, f'{FE}::_create_jobs: a row is appended to the job_parents arguments outside a loop over the submitted parent ids')
@@ -355,77 +645,183 @@ def r1_r2(ctx: Ctx) -> None:
         var = ci.P_ABS if s.source == 'abs' else ci.P_REL
         key = 'absolute_parent_ids' if s.source == 'abs' else 'in_update_parent_ids'
         ctx.need(var in s.parent.symbols(), f'{FE}::_create_jobs: the parent id stored for {key} ({s.parent}) is not a linear function of the submitted id')
-        ctx.check(any(s.job == j.job for j in jsinks), 'R1', f'{cons_key}::edge stored under the job\'s own id ({key})',
+        ctx.check(any(s.job == j.job for j in jsinks), 'R1', f'{cons_key}::edge stored under the job\'s own id ({key}){tag}',
                   f'the job_parents row of a job is stored with job_id = {s.job} while the job itself is stored with job_id = {jsinks[0].job}: the dependency is attached to another job', m.path, s.line)
-        ok, t = verdict(s.parent - s.job + lf.const(1), var, f'{key}: stored parent id ({s.parent}) < stored job id ({s.job})')
-        (up_good if ok else up_msgs).append(t)
+        up_res.append(verdict(s.parent - s.job + lf.const(1), var, f'{key}: stored parent id ({s.parent}) < stored job id ({s.job})'))
         if not fk:
-            ok, t = verdict(lf.const(1) - s.parent, var, f'{key}: stored parent id ({s.parent}) >= 1')
-            (lo_good if ok else lo_msgs).append(t)
+            lo_res.append(verdict(lf.const(1) - s.parent, var, f'{key}: stored parent id ({s.parent}) >= 1'))
+    up_msgs, up_good = settle(up_res, 'parent < child')
+    lo_msgs, lo_good = settle(lo_res, 'parent exists')
     ctx.need(seen_sources == {'abs', 'rel'}, f'{FE}::_create_jobs: parent ids of kind {sorted({"abs", "rel"} - seen_sources)} never reach job_parents (flow not recognised)')
-    ctx.check(not up_msgs, 'R1', cons_key + '::parent < child', '; '.join(up_msgs) + '. A job may then name itself or a later job as parent (for in-update ids the comparison must be made in the same coordinates as '
+    ctx.check(not up_msgs, 'R1', cons_key + '::parent < child' + tag, '; '.join(up_msgs) + '. A job may then name itself or a later job as parent (for in-update ids the comparison must be made in the same coordinates as '
               'the ids that are stored); its n_pending_parents never reaches 0 and the committed batch can never complete', m.path, psinks[0].line, detail=up_good)
-    ctx.check(fk or not lo_msgs, 'R1', cons_key + '::parent exists', '; '.join(lo_msgs) + '; and there is no foreign key job_parents(batch_id, parent_id) -> jobs. A job may depend on a job id that '
+    ctx.check(fk or not lo_msgs, 'R1', cons_key + '::parent exists' + tag, '; '.join(lo_msgs) + '; and there is no foreign key job_parents(batch_id, parent_id) -> jobs. A job may depend on a job id that '
               'never exists (e.g. parent 0); n_pending_parents never reaches 0', m.path, psinks[0].line, detail={'foreign_key': fk, 'bounds': lo_good})
+
+
+def _count_vars(r) -> Tuple[Optional[str], Optional[str]]:
+    """(variable holding batch_updates.n_jobs of the update, variable holding SUM(n_jobs) of its staging rows) in commit_batch_update - by what they are read from, not by name."""
+    exp = stg = None
+    for st in sf.all_statements(r.ast.body):
+        if st.kind == 'select' and st.into and st.frm is not None:
+            tabs = [t.lower() for t in sf.table_names(st.frm)]
+            for (c, _al), v in zip(st.cols, st.into):
+                if not sr.is_var(v):
+                    continue
+                if tabs == ['batch_updates'] and c.kind == 'col' and c.parts[-1].lower() == 'n_jobs':
+                    exp = text(v).lower()
+                if tabs == ['job_groups_inst_coll_staging'] and any(n.kind == 'func' and n.name.upper() == 'SUM' and len(n.args) == 1 and n.args[0].kind == 'col' and n.args[0].parts[-1].lower() == 'n_jobs'
+                                                                     for n in c.walk()):
+                    stg = text(v).lower()
+    return exp, stg
+
+
+def _count_guard(c: N, exp: str, stg: str) -> Optional[bool]:
+    """True: the condition holds exactly when staged = expected; False: exactly when they differ; None: something else."""
+    if c.kind == 'bin' and c.op in ('=', '<=>', '!=', '<>') and {text(c.left).lower(), text(c.right).lower()} == {exp, stg}:
+        return c.op in ('=', '<=>')
+    if c.kind == 'un' and c.op.upper() == 'NOT':
+        v = _count_guard(c.arg, exp, stg)
+        return None if v is None else not v
+    return None
 
 
 def r3(ctx: Ctx) -> None:
     prog = sf.load_program()
     r = prog.routine('commit_batch_update')
+    exp, stg = _count_vars(r)
+    ctx.need(exp is not None and stg is not None, 'commit_batch_update: the reads of the expected job count (batch_updates.n_jobs) / the staged job count (SUM(n_jobs) of the staging rows) were not found')
+
+    def under_equal(guard) -> bool:
+        return any(_count_guard(c, exp, stg) is not None and _count_guard(c, exp, stg) == p for c, p in guard)
+
+    def under_unequal(guard) -> bool:
+        return any(_count_guard(c, exp, stg) is not None and _count_guard(c, exp, stg) != p for c, p in guard)
     n = 0
+    seen: Dict[str, int] = {}
     for st, guard in sf.guarded_statements(r.ast.body):
         if sf.written_tables(st):
             n += 1
-            ok = any(p and text(c) == '(staging_n_jobs = expected_n_jobs)' for c, p in guard)
-            ctx.check(ok, 'R3', f'{r.file}::commit_batch_update::{st.kind} {sf.written_tables(st)[0][0]}', 'this write of the commit happens without the staged job count having been found equal to the expected one',
+            role = f'{st.kind} {sf.written_tables(st)[0][0]}'
+            seen[role] = seen.get(role, 0) + 1
+            ctx.check(under_equal(guard), 'R3', f'sql::commit_batch_update::{role}' + (f' #{seen[role]}' if seen[role] > 1 else ''),
+                      f'this write of the commit happens without the staged job count ({stg}) having been found equal to the expected one ({exp}): guards {[(text(c)[:40], p) for c, p in guard]}',
                       r.file, r.line_of(st))
     ctx.need(n >= 4, 'commit_batch_update: fewer than four writes found')
     # the refusing branch
     refuse = None
     for st, guard in sf.guarded_statements(r.ast.body):
-        if st.kind == 'txn' and st.what == 'ROLLBACK' and any((not p) and text(c) == '(staging_n_jobs = expected_n_jobs)' for c, p in guard):
+        if st.kind == 'txn' and st.what == 'ROLLBACK' and under_unequal(guard):
             refuse = guard
-    rc_ok = False
+    rc_ok = None
     for st, guard in sf.guarded_statements(r.ast.body):
-        if st.kind == 'select' and not st.into and guard == refuse:
+        if st.kind == 'select' and not st.into and guard == refuse and refuse is not None:
             for c, al in st.cols:
-                if (al or '').lower() == 'rc' and c.kind == 'lit' and c.value not in (0, None):
-                    rc_ok = True
-    ctx.check(refuse is not None and rc_ok, 'R3', f'{r.file}::commit_batch_update::refusal', 'a wrong job count does not roll back and answer with a non-zero rc', r.file, r.line)
+                if (al or '').lower() == 'rc' and c.kind == 'lit':
+                    rc_ok = c.value not in (0, None)
+    if refuse is None or rc_ok is None:
+        # no ROLLBACK under "counts differ" / no literal rc there: a LEAVE-style guard clause, a handler or a SIGNAL may do the refusing - not an alarm
+        signals = [st for st, guard in sf.guarded_statements(r.ast.body) if st.kind in ('signal', 'leave', 'resignal') and under_unequal(guard)]
+        ctx.need(False, 'commit_batch_update: the branch taken when staged and expected job counts differ was not recognised (no ROLLBACK + SELECT <literal> AS rc under that guard'
+                 + (f'; it contains {signals[0].kind.upper()}' if signals else '') + ')')
+    ctx.check(bool(rc_ok), 'R3', 'sql::commit_batch_update::refusal', 'a wrong job count rolls back but answers with rc = 0: the front end takes the commit for done', r.file, r.line)
     m = pf.load(FE)
     fn = m.func('_commit_update')
-    uses_check = any(isinstance(n_, ast.Call) and isinstance(n_.func, ast.Attribute) and n_.func.attr == 'check_call_procedure' for n_ in ast.walk(fn))
-    ctx.check(uses_check, 'R3', f'{FE}::_commit_update::rc checked', 'the front end does not check the rc of commit_batch_update (check_call_procedure raises on rc != 0)', m.path, fn.lineno)
+    calls = [n_ for n_ in ast.walk(fn) if isinstance(n_, ast.Call) and isinstance(n_.func, ast.Attribute) and n_.func.attr.endswith('call_procedure') and n_.args
+             and 'commit_batch_update' in (pf.const_str(n_.args[0]) or sf._sql_of_expr(fn, n_.args[0])[0] or '')]
+    ctx.need(calls, f'{FE}::_commit_update: the CALL of commit_batch_update was not found')
+    uses_check = all(c.func.attr == 'check_call_procedure' for c in calls)
+    if not uses_check:
+        # the rc may be tested by hand
+        tested = any(isinstance(x, ast.Subscript) and pf.const_str(x.slice) == 'rc' for x in ast.walk(fn))
+        ctx.need(not tested, f'{FE}::_commit_update: the result of commit_batch_update is read with {calls[0].func.attr} and its rc is looked at by hand: not analysed')
+    ctx.check(uses_check, 'R3', f'{FE}::_commit_update::rc checked', f'the front end calls commit_batch_update through {calls[0].func.attr} and never looks at its rc (check_call_procedure raises on rc != 0): '
+              'a refused commit is reported as done', m.path, fn.lineno)
     # INFO: rc mismatch
     for n_ in ast.walk(fn):
         if isinstance(n_, ast.Compare) and "e.rv['rc']" in pf.nsrc(n_.left):
             ctx.info(f'_commit_update tests `{pf.nsrc(n_)}` but the procedure answers rc = 1 for a wrong job count: the client gets a 500 instead of the intended 400 (still rejected)')
 
 
+def _and_conjuncts(t: ast.AST) -> List[ast.AST]:
+    if isinstance(t, ast.BoolOp) and isinstance(t.op, ast.And):
+        return [c for v in t.values for c in _and_conjuncts(v)]
+    return [t]
+
+
 def r4(ctx: Ctx) -> None:
-    m = pf.load(FE)
-    fn = m.func('_create_jobs.insert_jobs_into_db')
-    ok = False
-    for n in ast.walk(fn):
-        if isinstance(n, ast.Try) and any(isinstance(c, ast.Call) and c.args and pf.const_str(c.args[0]) and 'job_parents' in pf.const_str(c.args[0]) for b in n.body for c in ast.walk(b)):
-            for h in n.handlers:
-                if h.type is not None and 'IntegrityError' in pf.nsrc(h.type):
-                    for s in ast.walk(h):
-                        if isinstance(s, ast.If) and '1062' in pf.nsrc(s.test) and _raises(s.body):
-                            ok = True
-    ctx.check(ok, 'R4', f'{FE}::_create_jobs.insert_jobs_into_db::duplicate parents', 'a duplicated (job, parent) pair is not answered with HTTP 400', m.path, fn.lineno)
-    vm = pf.load(VAL)
-    vfn = vm.func('validate_and_clean_jobs')
+    from engines import c08ids as ci
+    from engines import inline
     from engines import linform as lf
+    m = pf.load(FE)
+    ci.resolve_module_sql(m)
+    fn = m.func('_create_jobs.insert_jobs_into_db')
+    cons = f'{FE}::_create_jobs.insert_jobs_into_db::duplicate parents'
+    # ---- a duplicated (job, parent) pair must not be swallowed: the primary key of job_parents refuses it and the error must leave the transaction function ----
+    target = None
+    for e in sf.embedded_in(m):
+        if e.fn is fn:
+            for st in e.stmts():
+                if st.kind == 'insert' and isinstance(st.table, str) and st.table.lower() == 'job_parents':
+                    target = (e, st)
+    ctx.need(target is not None, f'{cons}: INSERT INTO job_parents not found in insert_jobs_into_db')
+    e, st = target  # type: ignore[misc]
+    plain = not (st.ignore or st.replace or st.on_dup)
+    ctx.check(plain, 'R4', cons + '::plain insert', 'job_parents is written with INSERT IGNORE / REPLACE / ON DUPLICATE KEY UPDATE: a parent named twice is silently stored once while the job\'s '
+              'n_pending_parents counts it twice; the job never becomes Ready', m.path, e.lineno)
+    par = m.parents()
+    node: Optional[ast.AST] = e.call
+    tr = None
+    while node is not None and node is not fn:
+        up = par.get(node)
+        if isinstance(up, ast.Try) and any(node is x for x in up.body):
+            tr = up
+            break
+        node = up
+    verdict = None          # True: refused, False: swallowed
+    why = ''
+    if tr is None:
+        verdict, why = True, 'not inside a try: the IntegrityError propagates and the transaction is rolled back'
+    else:
+        catching = [h for h in tr.handlers if h.type is None or any(k in pf.nsrc(h.type) for k in ('IntegrityError', 'MySQLError', 'Exception', 'DatabaseError', 'Error'))]
+        if not catching:
+            verdict, why = True, 'no handler catches pymysql.err.IntegrityError: it propagates'
+        else:
+            h = catching[0]
+            br = ci.error_code_branch(m, h, 1062)
+            ctx.need(br is not None, f'{cons}: the handler `except {pf.nsrc(h.type) if h.type is not None else ""}` around INSERT INTO job_parents does not test err.args[0] against 1062 in a recognised way')
+            ends = br[-1] if br else None
+            if isinstance(ends, ast.Raise):
+                verdict, why = True, f'ER_DUP_ENTRY branch ends in `{pf.nsrc(ends)[:60]}`'
+            elif br is not None and not any(isinstance(x, (ast.Raise,)) for s_ in br for x in ast.walk(s_)):
+                verdict, why = False, ('ER_DUP_ENTRY branch `' + '; '.join(pf.nsrc(s_)[:40] for s_ in br) + '` does not raise') if br else 'ER_DUP_ENTRY branch is empty: the error is swallowed'
+            else:
+                raise AnalysisError(f'{cons}: the ER_DUP_ENTRY branch of the handler raises only on some paths')
+    ctx.check(bool(verdict), 'R4', cons, f'a duplicated (job, parent) pair is not refused: {why}. The insert of the bunch\'s dependency edges fails as a whole, the handler goes on and the transaction commits: '
+              'jobs with n_pending_parents > 0 and no job_parents rows, which never become Ready', m.path, e.lineno, detail=why)
+    # ---- contiguous job ids within a bunch -----------------------------------------------------------------------------------------------------
+    vm = pf.load(VAL)
+    vm2, _il = inline.inline_functions(ci.slice_module(vm, 'validate_and_clean_jobs'), 'validate_and_clean_jobs')
+    vfn = vm2.func('validate_and_clean_jobs')
     cur = {t.id for n in ast.walk(vfn) if isinstance(n, ast.Assign) and isinstance(n.value, ast.Subscript) and pf.const_str(n.value.slice) == 'job_id' for t in n.targets if isinstance(t, ast.Name)}
     prev = {t.id for n in ast.walk(vfn) if isinstance(n, ast.Assign) and isinstance(n.value, ast.Name) and n.value.id in cur for t in n.targets if isinstance(t, ast.Name)}
     ctx.need(cur and prev, f'{VAL}::validate_and_clean_jobs: current / previous job id variables not recognised')
     contiguous = False
     weaker = []
-    for c, ifn in _rejecting_compares(vfn):
-        names = pf.names_in(c)
-        if not (names & cur and names & prev):
+    relevant = 0
+    for n in ast.walk(vfn):
+        if not isinstance(n, ast.If):
             continue
+        cmps = [c for c in ast.walk(n.test) if isinstance(c, ast.Compare) and pf.names_in(c) & cur and pf.names_in(c) & prev]
+        if not cmps:
+            continue
+        relevant += 1
+        # the comparison must reject on its own (a conjunct of the test of an `if` whose body always rejects; the other conjuncts only say "there is a previous id")
+        tops = _and_conjuncts(n.test)
+        ctx.need(len(cmps) == 1 and any(cmps[0] is t for t in tops) and ci._always_rejects(n.body) and
+                 all(t is cmps[0] or (isinstance(t, ast.Name) and t.id in prev) or (isinstance(t, ast.Compare) and pf.names_in(t) <= prev) for t in tops),
+                 f'{VAL}::validate_and_clean_jobs: test `{pf.nsrc(n.test)[:80]}` on consecutive job ids not recognised')
+        c = cmps[0]
         ctx.need(len(c.ops) == 1, f'{VAL}::validate_and_clean_jobs: chained comparison `{pf.nsrc(c)}` of consecutive job ids not recognised')
         try:
             d = lf.lin(c.left) - lf.lin(c.comparators[0])
@@ -442,8 +838,14 @@ def r4(ctx: Ctx) -> None:
             weaker.append(pf.nsrc(c))
         else:
             raise AnalysisError(f'{VAL}::validate_and_clean_jobs: comparison `{pf.nsrc(c)}` of consecutive job ids not recognised')
+    # also a nested form: `if prev: if cur != prev + 1: raise`  (the inner `if` is the one found above; its body rejects)
+    if not contiguous and not weaker:
+        # no test on consecutive ids at all: either the check is gone or it is written in a way this rule does not see (a helper that is not inlined, a set comparison ...)
+        calls = [pf.dotted(c.func) or pf.nsrc(c.func) for c in ast.walk(vfn) if isinstance(c, ast.Call) and any(isinstance(x, ast.Name) and x.id in cur for x in c.args)
+                 and any(isinstance(x, ast.Name) and x.id in prev for x in c.args)]
+        ctx.need(not calls, f'{VAL}::validate_and_clean_jobs: consecutive job ids are handed to {calls}, which is not analysed')
     ctx.check(contiguous, 'R4', f'{VAL}::validate_and_clean_jobs::contiguous ids', 'job ids within a bunch are not required to be contiguous (id = previous id + 1)'
-              + (f': the only test is `{weaker[0]}`' if weaker else ''), vm.path, vfn.lineno)
+              + (f': the only test is `{weaker[0]}`' if weaker else ': the current and the previous job id are tracked but never compared'), vm.path, vfn.lineno)
 
 
 def r6(ctx: Ctx) -> None:
@@ -499,13 +901,14 @@ def r6(ctx: Ctx) -> None:
     prog = sf.load_program()
     r = prog.routine('commit_batch_update')
     exp = stg = None
+    ev, sv = _count_vars(r)
     for st in sf.all_statements(r.ast.body):
         if st.kind == 'select' and st.into and st.frm is not None:
             tabs = [t.lower() for t in sf.table_names(st.frm)]
             for (c, _al), v in zip(st.cols, st.into):
-                if text(v).lower() == 'expected_n_jobs':
+                if ev is not None and text(v).lower() == ev:
                     exp = tabs == ['batch_updates'] and c.kind == 'col' and c.parts[-1].lower() == 'n_jobs' and sr.has_eq(st.where, 'batch_id', 'in_batch_id') and sr.has_eq(st.where, 'update_id', 'in_update_id')
-                if text(v).lower() == 'staging_n_jobs':
+                if sv is not None and text(v).lower() == sv:
                     sums = [n for n in c.walk() if n.kind == 'func' and n.name.upper() == 'SUM' and len(n.args) == 1 and n.args[0].kind == 'col' and n.args[0].parts[-1].lower() == 'n_jobs']
                     stg = tabs == ['job_groups_inst_coll_staging'] and len(sums) == 1 and sr.has_eq(st.where, 'batch_id', 'in_batch_id') and sr.has_eq(st.where, 'update_id', 'in_update_id') \
                         and sr.has_eq(st.where, 'job_group_id', '0') and len(sf.conjuncts(st.where)) == 3
@@ -699,6 +1102,77 @@ def r8(ctx: Ctx) -> None:
 
 
 
+def r9(ctx: Ctx) -> None:
+    """A job of the first update becomes Ready when mark_job_complete has decremented jobs.n_pending_parents once per job_parents row of the job: the count stored by
+    the bunch insert must not exceed the number of rows stored for the job (commit_batch_update recounts only for later updates).  Compared as cardinality
+    normal forms (engines/c08card.py): |list| symbols for the request's parent lists, distinct(X) for de-duplicated ones; rows that repeat a key are refused
+    by the primary key of job_parents (R4), so un-deduplicated row lists are duplicate-free on every accepted request."""
+    from engines import c08card as cc
+    from engines import c08ids as ci
+    from engines import inline
+    m = pf.load(FE)
+    sinks_spec = _insert_sinks(ctx, m)
+    jl = [k for k, v in sinks_spec.items() if v[0] == 'jobs']
+    pl = [k for k, v in sinks_spec.items() if v[0] == 'job_parents']
+    ctx.need(len(jl) == 1 and len(pl) == 1, f'{FE}::_create_jobs: argument lists of the jobs / job_parents inserts not found')
+    ni = sinks_spec[jl[0]][1].get('n_pending_parents')
+    ctx.need(ni is not None, f'{FE}::_create_jobs: n_pending_parents is not a parameter of INSERT INTO jobs')
+    m2, _il = inline.inline_functions(ci.slice_module(m, '_create_jobs'), '_create_jobs')
+    fn = m2.func('_create_jobs')
+    loop = _spec_loop(ctx, fn, set(sinks_spec), f'{FE}::_create_jobs')
+    card = cc.Card(loop, loop.target.id)  # type: ignore[union-attr]
+    cons = f'{FE}::_create_jobs::n_pending_parents = number of job_parents rows'
+
+    def adds(n: ast.AST, lst: str) -> Optional[ast.Call]:
+        if isinstance(n, ast.Expr) and isinstance(n.value, ast.Call) and isinstance(n.value.func, ast.Attribute) and n.value.func.attr in ('append', 'extend', 'insert') \
+                and isinstance(n.value.func.value, ast.Name) and n.value.func.value.id == lst:
+            return n.value
+        return None
+    # the jobs row: once per job, at the top level of the loop body
+    jrows = [adds(st, jl[0]) for st in loop.body if adds(st, jl[0]) is not None]
+    all_j = [n for n in ast.walk(loop) if isinstance(n, ast.stmt) and adds(n, jl[0]) is not None]
+    ctx.need(len(jrows) == 1 and len(all_j) == 1 and jrows[0].func.attr == 'append' and len(jrows[0].args) == 1 and isinstance(jrows[0].args[0], ast.Tuple) and ni < len(jrows[0].args[0].elts),  # type: ignore[union-attr]
+             f'{FE}::_create_jobs: the jobs row is not appended exactly once per job at the top level of the loop')
+    count_e = jrows[0].args[0].elts[ni]  # type: ignore[union-attr]
+    # the job_parents rows
+    rows = None
+    raw: List[str] = []
+    texts = []
+    all_p = [n for n in ast.walk(loop) if isinstance(n, ast.stmt) and adds(n, pl[0]) is not None]
+    seen = 0
+    try:
+        count = card.count(count_e)
+        from engines import linform as lf
+        rows = lf.const(0)
+        for st in loop.body:
+            it = None
+            if isinstance(st, ast.For) and not st.orelse and len(st.body) == 1 and adds(st.body[0], pl[0]) is not None and adds(st.body[0], pl[0]).func.attr == 'append':  # type: ignore[union-attr]
+                it = st.iter
+                seen += 1
+            elif adds(st, pl[0]) is not None and adds(st, pl[0]).func.attr == 'extend' and len(adds(st, pl[0]).args) == 1:  # type: ignore[union-attr]
+                a = adds(st, pl[0]).args[0]  # type: ignore[union-attr]
+                if isinstance(a, (ast.GeneratorExp, ast.ListComp)):
+                    it = a
+                    seen += 1
+            if it is None:
+                continue
+            rows = rows + card.card(it)
+            c_ = card.canon(it)
+            texts.append(pf.nsrc(it)[:80])
+            if not c_.startswith('distinct('):
+                raw.append(c_)
+        ctx.need(seen == len(all_p) and seen >= 1, f'{FE}::_create_jobs: rows are added to `{pl[0]}` other than by one unconditional `for p in <list>: {pl[0]}.append(..)` per list at the top level of the per-job loop')
+        how, why = cc.compare(card, count, rows, raw)
+    except AnalysisError as e:
+        raise AnalysisError(f'{cons}: {e}')
+    ctx.need(how != 'unknown', f'{cons}: `{pf.nsrc(count_e)}` (= {count}) against the rows built from {texts} (= {rows}): {why}')
+    ctx.check(how != 'more', 'R9', cons, f'jobs.n_pending_parents is stored as `{pf.nsrc(count_e)}` = {count} while the job_parents rows of the job are built from {texts} = {rows}: {why}. ' +
+              ('A job that names the same parent twice (e.g. parent_ids [1, 1], or the same job once by its absolute and once by its in-update id) is accepted with more pending parents than edges; '
+               if 'dup(' in why else 'A job is accepted with more pending parents than dependency edges (some of the parents it names get no job_parents row); ') +
+              'mark_job_complete decrements once per edge, so in the first update (no recount at commit) the job stays Pending with n_pending_parents > 0 after all its parents finished and the '
+              'committed batch never completes', m.path, jrows[0].lineno, detail={'count': str(count), 'rows': str(rows), 'relation': how, 'why': why})
+
+
 ID_KEYS = ('job_id', 'parent_ids', 'absolute_parent_ids', 'in_update_parent_ids')
 
 
@@ -762,9 +1236,12 @@ def run(ctx: Ctx) -> None:
     ctx.rule('R6', 'the staged job count the commit compares is the number of inserted job rows: staged after INSERT INTO jobs, never by a replayed bunch, 1 per job; commit compares it with batch_updates.n_jobs', 3)
     ctx.rule('R7', 'the commit\'s recount of pending parents gives 0 for a dependency whose parent id has no jobs row (hole of an abandoned update), in n_pending_parents and in the state decision', 2)
     ctx.rule('R8', 'something establishes that a parent id reserved by an EARLIER update names an existing job (earlier updates committed before a new one is opened / committed, parents looked up, or a foreign key)', 1)
+    ctx.rule('R9', 'the pending-parent count stored with a job does not exceed the number of job_parents rows stored for it on any accepted request (cardinality normal forms; duplicates)', 1)
+    from engines import c08ids as _ci
+    ctx.unit('SQL texts resolved through module-level constants', _ci.resolve_module_sql(pf.load('batch/batch/front_end/front_end.py')))
     # the rules are independent: a shape one of them cannot analyse must not hide the verdicts of the others
     declined: List[str] = []
-    for rule in (r1_r2, r3, r4, r5, r6, r7, r8):
+    for rule in (r1_r2, r3, r4, r5, r6, r7, r8, r9):
         try:
             rule(ctx)
         except AnalysisError as e:
